@@ -1641,3 +1641,192 @@ var rR17c = RuleRef{Name: "R17c", Doc: "every pattern element is matched on its 
 	c.Count("R17c_loop_variables", n)
 	c.Min("R17c_loop_variables", 2)
 }}
+
+// ---------- R22m: a deadline record is made where its timer is started ----------
+
+var rR22m = RuleRef{Name: "R22m", Doc: "a deadline record is never moved: every insertion into the deadline table (ttlKeys.Set/SetIf*) stores a TTLInfo allocated by the inserting function (or by a constructor whose every return is a fresh allocation), never a record read out of the table or handed in. A record carries the cancel channel of its timer goroutine, which was started for one key name: re-inserting it under another name (RENAME 'moving' the deadline) leaves a timer that expires the old name, and when the two names are the same key the record was already cancelled -- the next retirement closes its channel a second time and takes the process down", Run: func(c *C) {
+	n := 0
+	var fresh func(v ssa.Value, depth int, seen map[ssa.Value]bool) bool
+	fresh = func(v ssa.Value, depth int, seen map[ssa.Value]bool) bool {
+		if v == nil || seen[v] || depth > 3 {
+			return false
+		}
+		seen[v] = true
+		switch x := v.(type) {
+		case *ssa.MakeInterface:
+			return fresh(x.X, depth, seen)
+		case *ssa.Alloc:
+			return true
+		case *ssa.Phi:
+			for _, e := range x.Edges {
+				if !fresh(e, depth, seen) {
+					return false
+				}
+			}
+			return len(x.Edges) > 0
+		case *ssa.Call:
+			cf := callee(x)
+			if cf == nil || !firstParty(cf) || len(cf.Blocks) == 0 {
+				return false
+			}
+			any := false
+			for _, b := range cf.Blocks {
+				if ret, ok := b.Instrs[len(b.Instrs)-1].(*ssa.Return); ok && len(ret.Results) >= 1 {
+					any = true
+					if !fresh(ret.Results[0], depth+1, seen) {
+						return false
+					}
+				}
+			}
+			return any
+		}
+		return false
+	}
+	for _, fn := range c.P.allFuncs("memdb") {
+		ord := 0
+		for _, b := range fn.Blocks {
+			for _, in := range b.Instrs {
+				call, ok := in.(*ssa.Call)
+				if !ok {
+					continue
+				}
+				a := c.keyspaceAccess(call)
+				if a == nil || a.Map != "ttlKeys" || !a.Write || a.Method == "Delete" || len(call.Call.Args) < 3 {
+					continue
+				}
+				n++
+				ord++
+				c.Add("R22m", fnName(fn), fmt.Sprintf("deadline record #%d put into the table is allocated here", ord), call.Pos(), fresh(call.Call.Args[2], 0, map[ssa.Value]bool{}), "the record stored is not a fresh allocation (it was read from the table or handed in): its timer and cancel channel belong to another insertion")
+			}
+		}
+	}
+	c.Count("R22m_deadline_insertions", n)
+	c.Min("R22m_deadline_insertions", 1)
+}}
+
+// ---------- R16v: a paginated log read has no hole ----------
+
+var rR16v = RuleRef{Name: "R16v", Doc: "a read that spans storage and the unstable tail (raftLog.slice) appends the tail only behind a complete storage part: every path from the Storage.Entries call (made directly or by a helper) to the call that fetches the unstable part passes the false edge of the test `fewer entries came back than were asked for` -- the comparison of the length of what storage returned with the size of the range, evaluated in slice itself or returned as a boolean by the helper that made the read. Glued behind a prefix that the size limit cut short, the tail makes a log with a hole, which followers store at consecutive positions", Run: func(c *C) {
+	fn := c.P.Func(raftPkg, "raftLog.slice")
+	if fn == nil {
+		c.Undecided("R16v", "anchor raftLog.slice")
+		return
+	}
+	condNameOK = true
+	defer func() { condNameOK = false }()
+	// the "short read" comparison: len(x) < something, x a result of Storage.Entries (interface call)
+	isShortReadCmp := func(v ssa.Value) bool {
+		bo, ok := v.(*ssa.BinOp)
+		if !ok {
+			return false
+		}
+		switch bo.Op {
+		case token.LSS, token.GTR, token.LEQ, token.GEQ:
+		default:
+			return false
+		}
+		hasLen := false
+		for _, side := range []ssa.Value{bo.X, bo.Y} {
+			s := side
+			if cv, ok := s.(*ssa.Convert); ok {
+				s = cv.X
+			}
+			if call, ok := s.(*ssa.Call); ok {
+				if bi, ok := call.Call.Value.(*ssa.Builtin); ok && bi.Name() == "len" {
+					hasLen = true
+				}
+			}
+		}
+		return hasLen
+	}
+	// helpers of slice that make the storage read and hand back such a comparison as a boolean result
+	readers := map[*ssa.Function]int{}
+	callsEntries := func(f *ssa.Function) bool {
+		for _, b := range f.Blocks {
+			for _, in := range b.Instrs {
+				if ci, ok := in.(ssa.CallInstruction); ok && ci.Common().IsInvoke() && ci.Common().Method.Name() == "Entries" {
+					return true
+				}
+			}
+		}
+		return false
+	}
+	for _, b := range fn.Blocks {
+		for _, in := range b.Instrs {
+			if call, ok := in.(*ssa.Call); ok {
+				if cf := callee(call); cf != nil && cf != fn && cf.Pkg == fn.Pkg && len(cf.Blocks) > 0 && callsEntries(cf) {
+					for _, b2 := range cf.Blocks {
+						if ret, ok := b2.Instrs[len(b2.Instrs)-1].(*ssa.Return); ok {
+							for i, r := range ret.Results {
+								if isShortReadCmp(r) {
+									readers[cf] = i
+								}
+							}
+						}
+					}
+				}
+			}
+		}
+	}
+	of := c.orderFlow(fn, nil, true, "T|cmp:*", "F|cmp:*", "T|ok:*", "F|ok:*", "C|*")
+	n := 0
+	var bad []string
+	for _, b := range fn.Blocks {
+		for _, in := range b.Instrs {
+			call, ok := in.(*ssa.Call)
+			if !ok {
+				continue
+			}
+			cf := callee(call)
+			if cf == nil || cf.Signature.Recv() == nil || namedOf(cf.Signature.Recv().Type()) != "unstable" {
+				continue
+			}
+			states, live := of.States(in)
+			if !live {
+				continue
+			}
+			n++
+			for _, st := range states {
+				read := st["C|Entries"]
+				for h := range readers {
+					if st["C|"+h.Name()] {
+						read = true
+					}
+				}
+				if !read {
+					continue
+				}
+				good := false
+				for f := range st {
+					if !strings.HasPrefix(f, "F|") {
+						continue
+					}
+					name := f[2:]
+					if strings.HasPrefix(name, "cmp:len(") && strings.Contains(name, "<") {
+						good = true
+					}
+					for h, idx := range readers {
+						if strings.HasPrefix(name, "ok:"+h.Name()+"#") {
+							// which result of the helper was tested: the register named in the fact
+							reg := name[strings.Index(name, "#")+1:]
+							for _, b2 := range fn.Blocks {
+								for _, in2 := range b2.Instrs {
+									if ex, ok := in2.(*ssa.Extract); ok && ex.Index == idx {
+										if c2, ok := ex.Tuple.(*ssa.Call); ok && c2.Name() == reg {
+											good = true
+										}
+									}
+								}
+							}
+						}
+					}
+				}
+				if !good {
+					bad = append(bad, c.pos(call.Pos())+": a path reads from storage and then appends the unstable part without having passed the short-read test")
+				}
+			}
+		}
+	}
+	c.Add("R16v", fnName(fn), "the unstable tail is appended only behind a complete storage part", fn.Pos(), len(bad) == 0 && n > 0, strings.Join(uniq(bad), "; "))
+	c.Count("R16v_tail_reads", n)
+}}
